@@ -186,7 +186,11 @@ def run(ctx):
                     DF["unsampled_len"] = nm_
                 elif const_int(v_) == 0:
                     DF["idx"] = nm_
-            rest_ = [nm_ for nm_, v_ in zip(r[4], r[3]) if nm_ not in (DF["unsampled_len"], DF["idx"]) and not (strip_sym(v_)[0] == "arg")]
+                    DF.pop("_range", None)
+                elif v_[0] == "agg" and (v_[5] or "").endswith("ops::range::Range") and len(v_[3]) == 2 and const_int(v_[3][0]) == 0:
+                    DF["idx"] = nm_  # the cursor is kept as the range 0..len of slots still to be yielded
+                    DF["_range"] = repr(strip_sym(v_[3][1]))
+            rest_ = [nm_ for nm_, v_ in zip(r[4], r[3]) if nm_ not in (DF["unsampled_len"], DF.get("idx")) and not (strip_sym(v_)[0] == "arg")]
             if len(rest_) == 1:
                 DF["len"] = rest_[0]
         ok = r[0] == "agg" and DF["len"] in r[4] and DF["unsampled_len"] in r[4]
@@ -202,7 +206,7 @@ def run(ctx):
                 alts = ln[1] if ln[0] == "phi" else [ln]
                 cmp_ok = any(strip_sym(dd)[0] == "bin" and strip_sym(dd)[1] in ("Gt", "Lt", "Ge", "Le") for bb, dd, t_, f_ in bool_switches(drain.body))
             ok = ok and len(alts) == 2 and any(sym_is_call(strip_sym(a), "len") and "'values'" in repr(a) for a in alts) and any(repr(strip_sym(a)) == repr(un) for a in alts)
-            ok = ok and const_int(f[DF["idx"]]) == 0
+            ok = ok and DF.get("idx") in f and (const_int(f[DF["idx"]]) == 0 or (DF.get("_range") is not None and DF["_range"] == repr(ln)))
             ok = ok and cmp_ok
         chk.ob("C16.b", drain.path, ok, "drain: unsampled_len = count.load(); len = min(count, capacity); idx = 0" if ok else "drain does not clamp its length to min(count, capacity)", drain.loc())
     D = f"{R}::Drain"
@@ -235,6 +239,10 @@ def run(ctx):
 
         pf = PredFlow(nx, lambda subj, v: None, cbool)  # P = "idx < len"
         ok = len(lo) == 1 and pf.at(lo[0][0].bb) == "P"
+        if not ok and DF.get("_range") is not None and len(lo) == 1:
+            # the cursor is the range 0..len: a slot is read only with an index that range's next() produced
+            txt = repr(lo[0][2])
+            ok = "range::Range" in txt and "Iterator>::next" in txt and f"'{DF['idx']}'" in txt and "'Some'" in txt
         chk.ob("C16.b", nx.path, ok, "next() yields values[idx] only while idx < len" if ok else "Drain::next can yield beyond min(count, capacity)", nx.loc())
     dd_ = (u.method(D, "drop", "Drop") or [None])[0]
     if dd_:
